@@ -38,6 +38,7 @@ type Unit struct {
 	Entries   []string            `json:"entries"`
 	Nop       []string            `json:"nop"`
 	NopFuncs  []string            `json:"nop_funcs"`
+	CrandNonzero bool             `json:"crand_nonzero"` // crypto/rand.Int draws are >= 1 (for callers that redraw on zero)
 	Havoc     []string            `json:"havoc"` // dependency functions modelled by signature only (error or arbitrary success)
 	ProtoBytesLens []int          `json:"proto_bytes_lens"`
 	SkipInit  []string            `json:"skip_init"`
